@@ -27,7 +27,7 @@ def summary(t):
 
 def run(ctx):
     thorough = ctx.tier == "thorough"
-    ncases = 60000 if thorough else 3000
+    ncases = 60000 if thorough else 2500
     maxmsgs = 5 if thorough else 3
     maxlen = 22 if thorough else 14
 
@@ -122,14 +122,16 @@ def run(ctx):
     ctx.cov["rule"] = ("scripts are random walks (TLC, spec/WrapGen.tla) through the grammar of well-matched joint "
                        "client/server scripts of spec/Wrap.tla: shapes unary, server-stream, client-stream, bidi and unary "
                        "through NewStream; 0..%d messages each way; SetHeader/SendHeader/SetTrailer, any status, half-close, "
-                       "cancel or deadline wherever the grammar allows; a blocked client op may stay pending over server "
-                       "steps; plus every refused call (unknown method/service, each wrong stream shape).  Each script runs "
+                       "cancel or deadline wherever the grammar allows (also before the first server message), after which a "
+                       "handler that has seen its context end may carry on with SetHeader/SendHeader/Send/SetTrailer while "
+                       "the client reads Header()/Trailer(); a blocked client op may stay pending over server steps; plus every refused call (unknown method/service, each wrong stream shape).  Each script runs "
                        "through the wrapper and through grpc over bufconn (order of the two ops of a step and small pauses "
                        "drawn from the seed).  non-trivial = a message, metadata, a non-OK status or a context end occurs; "
                        "distinct = distinct (shape, step sequence with all parameters)." % maxmsgs)
     ctx.assumptions.append("scripts are well-matched: every send meets a receiver that is ready, no side relies on buffering")
     ctx.assumptions.append("not asserted: trailers of calls the client ended itself; what the handler observes after the "
-                           "client's context ended; Invoke on a streaming method (Unimplemented vs Internal unsettled)")
+                           "client's context ended; Invoke on a streaming method (Unimplemented vs Internal unsettled); "
+                           "SetHeader/SendHeader after the handler's headers were written (gRPC refuses them): not generated")
 
 
 MANIFEST = {'engine': "spec/Wrap.tla + WrapMC/WrapGen/WrapTrace.tla (TLC) + harness 'wrapx' (wrap.ServerToClient vs grpc over bufconn)",
@@ -153,4 +155,4 @@ MANIFEST = {'engine': "spec/Wrap.tla + WrapMC/WrapGen/WrapTrace.tla (TLC) + harn
  'note': 'Trusted base: TLC evaluating the TLA+ predicates; grpc-go v1.67.1 over bufconn as the reference; the harness '
          'reporting faithfully what each side observed. The schedule inside a step is sampled, not enumerated. '
          'Not asserted: trailer metadata of calls ended by the client itself, handler-side observations after the '
-         'context ended, Invoke on a streaming method.'}
+         'context ended, Invoke on a streaming method, SetHeader/SendHeader after the headers were written.'}
